@@ -105,7 +105,7 @@ def main(argv=None):
         s['tier'] = a.tier
         s['seed'] = seed
     jobs = a.jobs or min(16, os.cpu_count() or 4)
-    timeout = getattr(mod, 'SHARD_TIMEOUT', {}).get(a.tier, 3600 if a.tier == 'quick' else 6 * 3600)
+    timeout = getattr(mod, 'SHARD_TIMEOUT', {}).get(a.tier, 900 if a.tier == 'quick' else 2 * 3600)
     reports = []
     tmpbase = os.environ.get('VERIF_SCRATCH') or None
     with tempfile.TemporaryDirectory(prefix='vmon-%s-' % pid, dir=tmpbase) as tmp:
